@@ -761,6 +761,25 @@ example : attr (parseSdr Variant.intended (witness (.ascii8 [65, 50])).encode) "
   rw [parse_encode_full _ (by decide)]
   decide +kernel
 
+/-- 8-bit id strings (type 11b and type 00b) are the bytes as stored, one character per byte, and a backslash is a
+character: `PSU\u00b0C` (50h 53h 55h 5Ch 75h 30h 30h 62h 30h 43h) reads back as those ten characters — not as the
+five characters `PSU°C` a decoder that interprets `\uXXXX` would make of it —, as instances of
+`id_string_roundtrip` and of `parse_encode_full`; `C:\usb` (a backslash-u that is no escape) likewise. -/
+example : idString Variant.intended ((IdString.ascii8 [80, 83, 85, 92, 117, 48, 48, 98, 48, 67]).encode ++ []) =
+      .ok [("device_id_string_type", .nat 3), ("device_id_string_length", .nat 10),
+           ("device_id_string", .list [80, 83, 85, 92, 117, 48, 48, 98, 48, 67])] ∧
+    idString Variant.intended ((IdString.unicode [67, 58, 92, 117, 115, 98]).encode ++ [0xaa]) =
+      .ok [("device_id_string_type", .nat 0), ("device_id_string_length", .nat 6),
+           ("device_id_string", .list [67, 58, 92, 117, 115, 98])] :=
+  ⟨id_string_roundtrip _ (by decide) [], id_string_roundtrip _ (by decide) [0xaa]⟩
+
+example : attr (parseSdr Variant.intended (witness (.ascii8 [80, 83, 85, 92, 117, 48, 48, 98, 48, 67])).encode)
+      "device_id_string" = some (.list [80, 83, 85, 92, 117, 48, 48, 98, 48, 67]) ∧
+    attr (parseSdr Variant.intended (witness (.ascii8 [80, 83, 85, 92, 117, 48, 48, 98, 48, 67])).encode)
+      "device_id_string_length" = some (.nat 10) := by
+  rw [parse_encode_full _ (by decide)]
+  decide +kernel
+
 example : (⟨1, 0x51, 0xC0, [1, 2, 3, 4]⟩ : Opaque).wf = true ∧ (3 ≤ [1, 2, 3, 4].length) := by decide
 example : (⟨1, 0x51, 0x08, []⟩ : Opaque).wf = true ∧ kindOfType 0x08 = .unknown := by decide
 example : (⟨7, 0x51, 0x10, 3, 15, 9, 2, 1, 0x51, 0x2c14a, 0x8006, List.replicate 16 0xab⟩ : McConfirmation).wf = true := by
